@@ -88,6 +88,10 @@ def cases(draw: Any, tier: str) -> dict:
         if d.pct(30):
             # names are descriptions, not keys: several service tasks may carry the same one
             r["name"] = d.pick(["worker", "worker", "server"])
+        if action in ("raise_exc", "raise_base") and d.pct(40):
+            r["araise"] = True
+        if r["via"] == "method" and d.pct(25):
+            r["from_child"] = True  # started through the owner's method while a nested context is current
         if not crashed and body_sleep > 0 and d.pct(6):
             r["beh"] = "crash"
             r["d"] = d.pick([x for x in (1, 3, 5) if x < body_sleep] or [1])
@@ -253,6 +257,13 @@ class Interp:
                             await anyio.sleep(1)
                             stop.set()
                             interp.ev("action-end", i)
+                    elif reg.get("araise"):
+                        # an async stop callable whose awaitable raises (after a checkpoint)
+                        async def action(i: int = i, a: str = a) -> None:  # type: ignore[misc]
+                            interp.ev("action", i)
+                            await anyio.lowlevel.checkpoint()
+                            interp.ev("action-end", i)
+                            raise (ActErr if a == "raise_exc" else ActBase)(f"action {i}")
                     elif a == "raise_exc":
                         def action(i: int = i) -> None:  # type: ignore[misc]
                             interp.ev("action", i)
@@ -276,6 +287,11 @@ class Interp:
                     try:
                         if reg["via"] == "module":
                             v = await start_service_task(fn, reg.get("name") or f"svc{i}", **akw)
+                        elif reg.get("from_child"):
+                            from asphalt.core import Context as _Ctx
+
+                            async with _Ctx():
+                                v = await ctx.start_service_task(fn, reg.get("name") or f"svc{i}", **akw)
                         else:
                             v = await ctx.start_service_task(fn, reg.get("name") or f"svc{i}", **akw)
                     except Exception as exc:
